@@ -694,7 +694,8 @@ func genC05Filter(c *ctx) {
 	nScan := c.pick(1500, 20000)
 	for k := 0; k < nScan; k++ {
 		var b []byte
-		switch c.rng.Intn(4) {
+		kindOfInput := c.rng.Intn(4)
+		switch kindOfInput {
 		case 0:
 			b, _ = paths.aDrag(c.rng)
 		case 1, 2:
@@ -706,6 +707,11 @@ func genC05Filter(c *ctx) {
 			}
 		}
 		files, hasDir, ignore, win := trzsz.VerifDetectDragFiles(b)
+		if files != nil && kindOfInput != 0 {
+			// DIRECT ORACLE: typed input that is not entirely a list of existing files/directories
+			c.violate("drag-false-positive", "typed input that is not entirely a list of existing regular files / directories would be swallowed as a drag upload",
+				fmt.Sprintf("detectDragFiles(%q) = %q", b, files))
+		}
 		res := "none"
 		if files != nil {
 			var fs [][]byte
